@@ -302,7 +302,16 @@ func vfC20GenScript(r *rand.Rand, nSteps int) ([]vfC20Step, []vfC20Meta) {
 	}
 	ids := make([]string, nMeta)
 	for i := range ids {
-		ids[i] = fmt.Sprintf("att-%d", i)
+		ids[i] = vfC20AttemptID(r, fmt.Sprintf("att-%d", i), 600)
+		if i > 0 && r.Intn(6) == 0 {
+			sw, fresh := vfC20SwapCase(ids[r.Intn(i)]), true
+			for _, o := range ids[:i] {
+				fresh = fresh && o != sw
+			}
+			if fresh {
+				ids[i] = sw // differs from an earlier id only in case: a different attempt
+			}
+		}
 	}
 	reg := map[string]int{} // id -> metadata index currently registered (generator's own bookkeeping)
 	var dead []int          // metadata indices that were registered and then removed / replaced
